@@ -1176,5 +1176,6 @@ PROP_THEOREMS = {
             "C13_ok_means_progress", "C13_progress_invariant_is_reachable",
             "C13_finish_on_truncated_stored_stream_is_buffer_error_partial"],
     "C19": ["C19_boundary_record_roundtrip", "C19_no_record_elsewhere",
-            "C19_rebuilt_decoder_continues_stored_streams_partial"],
+            "C19_rebuilt_decoder_continues_stored_streams_partial",
+            "C19_stop_once_per_nonfinal_stored_block_partial", "C19_one_call_stops_after_exactly_one_stored_block_partial"],
 }
